@@ -280,7 +280,11 @@ static void exec(const Plan* p) {
         e = model_check(l.s, l.n, explicit_delims, s.in, s.in_size, dc, dcn, W, (size_t)128 << 10, minml);
         if (e) { if (mode >= 2) sim_violation("extract_invalid", "library-extracted sequences are not a valid parse: %s", e); sim_violation("harness", "own parse invalid: %s", e); }
         if (mode <= 1 && mm >= 4) { size_t k; for (k = 0; k < l.n; k++) if (l.s[k].matchLength && l.s[k].matchLength < mm) sim_violation("harness", "own parse has ml %u < minMatch %u", l.s[k].matchLength, mm); }
-        if (mode >= 2 && mm >= 4) { /* extracted lists may legitimately contain 3-byte matches only if the compressor's minMatch was 3 */ size_t k; for (k = 0; k < l.n; k++) if (l.s[k].matchLength == 3) sim_probe("c17.extracted_ml3_with_mm4"); }
+        if (mode >= 2) {   /* zstd.h: "ZSTD_c_minMatch MUST be set as less than or equal to the smallest match" of the list: an extraction may hold 3-byte matches
+                             * whatever the extracting context's minMatch was (long-distance matches cut down by the optimal parser), so the caller follows the list */
+            size_t k; unsigned smallest = 7; for (k = 0; k < l.n; k++) if (l.s[k].matchLength && l.s[k].matchLength < smallest) smallest = l.s[k].matchLength;
+            if (smallest < 3) smallest = 3;
+            if (smallest < (unsigned)sess_get_cparam(p, "minMatch", 3) || sess_get_cparam(p, "minMatch", 0) == 0) { ZSTD_CCtx_setParameter(c, ZSTD_c_minMatch, (int)smallest); if (smallest == 3) sim_probe("c17.extracted_ml3_minmatch_lowered"); } }
     }
     /* ---- list faults ---- */
     if (corrupt && mode <= 3) {
